@@ -30,8 +30,9 @@ ASSUMPTIONS = [
     "theorems are conditional on the conversion returning (model result Some _); cnf_total shows it does for every formula whose connectives have Boolean-structure/atom children",
     "cnf_sound / pol_sound are full theorems for the repaired clean-up (pysmt 7e10806: FALSE_CNF when a clause is emptied); the former witnesses And(a, FALSE), And(FALSE, FALSE), Or(FALSE, FALSE) are directed regression cases (Coq: regression_emptied; harness: first batch)",
     "Ackermannization: models/Ackermann.v is the code repaired by build/fixes/C11_ackermann_nested.diff; ack_shape, ack_complete (f quantifier-free, well-typed, in the C01 fragment okt; I wf_interp; manager knows the symbols of f) and ack_sound (f quantifier-free, J wf_interp) are theorems, nested applications included",
+    "shape: C11_cnf_shape_simplifier / C11_pol_shape_simplifier need the atoms of the input to be symbols, constants, applications, relations, equalities or string predicates (atoms_ok); refuted otherwise (shape_hyp_refuted, cnf_shape_refuted: a Bool-sorted Select on a constant array value is replaced by the stored element) - open finding cnf-shape:bool-select-of-array-value",
     "FNode.simplify()/get_type() use the GLOBAL environment, so the check makes the fresh Environment of each batch the global one",
-    "the theorems are stated for a NEW converter / Ackermannizer object (start_ok: intro = []; init_astate); REUSE of one object for several formulas (solvers/pico.py keeps one CNFizer) is outside them and is carried by the history families: the Coq models run as histories (state threaded between calls) against the implementation, the equisatisfiability oracles on every call, and for Ackermannization the comparison with a new object's result; on the unchanged code a reused Ackermannizer also emits the consistency implications of applications met in EARLIER formulas - extra conjuncts over extra fresh constants, which keep both clauses of the property (checked by the oracle on every history call)",
+    "reuse of one object for several formulas (solvers/pico.py keeps one CNFizer) is covered by theorems as well: C11_cnf_*_reuse / C11_pol_*_reuse for any state of a history of successful conversions (cnf_hist, reuse_ok: f mentions no variable introduced earlier) and C11_ack_sound_history / C11_ack_complete_history (ack_hist; completeness for formulas over the symbols known when the object was created); the history families tie the threaded models to the implementation and run the oracles on every call; not covered by theorems: the state left behind by a call that RAISES",
 ]
 RULE = ("cases: harness/gen/formulas.py restricted to quantifier-free (theory atoms of every theory, Boolean structure nested in atoms, sharing) "
         "+ a propositional generator with Boolean constants at every position, ITE, IFF, 0/1-ary And/Or and user symbols named FV<n>; "
@@ -48,6 +49,7 @@ RULE = ("cases: harness/gen/formulas.py restricted to quantifier-free (theory at
 
 KNOWN_EMPTIED = "cnf-cleanup:emptied-clause-dropped"     # fixed in 7e10806: a hit is a regression and is reported
 KNOWN_ACK_NESTED = "ackermann:application-nested-in-non-application-argument"
+KNOWN_SHAPE_SELECT = "cnf-shape:bool-select-of-array-value"
 
 
 # ------------------------------------------------------------------------------------------
@@ -460,6 +462,16 @@ def check_equisat(env, rnd, f, clauses, max_aux=10, max_dpll=80, exact_small=Fal
     return None
 
 
+def select_class(env, f):
+    """Independent statement of the known finding's input class: a Bool-sorted Select whose array
+    is a constant array value and whose index is a constant (the simplifier replaces such an atom
+    by the stored element, which may be any Boolean formula)."""
+    for n in tocoq.topo([f]):
+        if n.is_select() and n.arg(0).is_array_value() and n.arg(1).is_constant() and env.stc.get_type(n).is_bool_type():
+            return True
+    return False
+
+
 def emptied_class(conv, f):
     """Independent statement of the known finding's input class: the un-cleaned definitional
     clause set (the walk's own result) has a clause whose literals are all FALSE or the negated
@@ -480,8 +492,10 @@ def search_cnf(chk, env, rnd, r, stats, exact_small=False):
     bad = shape_error(env, cl)
     if bad is not None:
         chk.violation({"kind": "input", "what": "%s: result is not a set of clauses of literals: %s" % (kind, bad.serialize()),
-                       "formula": f.serialize(), "repro": repro(kind, f)}, key="%s-shape:%s" % (kind, short_key(f)))
-        return
+                       "formula": f.serialize(), "repro": repro(kind, f)},
+                      key=(KNOWN_SHAPE_SELECT if select_class(env, f) else "%s-shape:%s" % (kind, short_key(f))))
+        if not select_class(env, f):
+            return
     res = check_equisat(env, rnd, f, cl, exact_small=exact_small, max_aux=(5 if exact_small else 10))
     if res is None:
         stats["searched"] += 1
@@ -538,6 +552,9 @@ def cnf_part(chk, rnd, tier):
             fs += [T, F, a, m.Not(a), m.And(a, F), m.And(F, F), m.And(T, T), m.Or(a, T), m.Or(F, F), m.Not(m.And(a, bb)),
                    m.Implies(a, F), m.Implies(T, a), m.Iff(a, F), m.Iff(a, a), m.Ite(a, T, F), m.Ite(T, a, bb),
                    m.And(a, m.Not(a)), m.Or(a, m.Not(a)), m.And(m.Or(a, bb), m.Or(a, bb)), m.Not(m.Not(m.Or(a, F)))]
+            from pysmt.typing import INT as _INT
+            sel = m.Select(m.Array(_INT, F, {m.Int(1): m.And(a, bb)}), m.Int(1))
+            fs += [m.Or(a, m.Not(sel)), m.And(a, sel), m.Iff(sel, bb)]
             directed_done = True
         for i in range(per_batch):
             if fg is not None and i % 2 == 0:
@@ -1403,7 +1420,7 @@ def run(tier):
     corr_ok = cnf_part(chk, rnd, tier)
     corr_ok = ack_part(chk, rnd, tier) and corr_ok
     fresh_env()
-    if (not ok or not corr_ok) and not chk.violations and not chk.known_hits:
+    if (not ok or not corr_ok) and not chk.violations:      # a known finding must not hide a broken proof / correspondence
         what = []
         if not ok:
             what.append("proof obligations no longer check: " + lib.proof_failure_summary(chk))
